@@ -513,6 +513,13 @@ func TestKeysetProtoDoesNotAlias(t *testing.T) {
 		if err != nil {
 			rt.Fatalf("%s: reading back its own keyset: %v", info.Desc, err)
 		}
+		// the call received the caller's proto: the byte slices inside it are the caller's and must be
+		// as they were (c12 / c13 only count a modified input since the audit round)
+		for i, kk := range src.GetKey() {
+			if !bytes.Equal(kk.GetKeyData().GetValue(), pristine.GetKey()[i].GetKeyData().GetValue()) {
+				rt.Fatalf("%s: building a handle from the caller's keyset proto changed the key data bytes of entry %d in that proto", info.Desc, i)
+			}
+		}
 		for _, kk := range src.GetKey() {
 			flipAll(kk.GetKeyData().GetValue())
 			kk.KeyId ^= 0xFFFF
